@@ -360,7 +360,7 @@ func (w *Proxy) h2ends() []*peers.H2End {
 
 func crossIgnore(k string) bool {
 	switch k {
-	case "host", "content-length", "transfer-encoding", "connection", "keep-alive", "date", "server", "accept-encoding",
+	case "host", "content-length", "transfer-encoding", "connection", "keep-alive", "date", "server", "accept-encoding", "expect",
 		"x-host", "x-att", "x-mosn-host", "x-mosn-method", "x-mosn-path", "x-mosn-querystring", "x-mosn-original-path":
 		return true
 	}
